@@ -1,4 +1,5 @@
 import JsonPathVerif.Paths
+import JsonPathVerif.NPath
 /-! # C03 – each reported path is the Normalized Path of the reported node -/
 namespace JP.C03
 open JP
@@ -33,5 +34,20 @@ theorem C03a_refuted : ¬ C03a_statement := by
 theorem C03a_partial (E : Engine) (q : List Segment) (d : Json) (hd : d.plainKeys = true) (hn : nnSegs q)
     (ps : List Ptr) (h : jsPathProcess E q d = .ok ps) : ∀ p ∈ ps, p.path = Spec.npath p.loc :=
   fun p hp => (result_paths E d hd q hn ps h p hp).1
+
+/-- (b) for ALL locations, arbitrary member names included: the Normalized Path determines the node (a decoder inverts it) -/
+theorem C03b_injective (l₁ l₂ : Loc) (h : Spec.npath l₁ = Spec.npath l₂) : l₁ = l₂ := NPath.npath_injective l₁ l₂ h
+theorem C03b_decodable (l : Loc) : NPath.parseNPath (Spec.npath l) = some l := NPath.parseNPath_npath l
+
+/-- (a)+(b): under the hypotheses of `C03a_partial`, two results of one query carry the same path exactly when they are the same node -/
+theorem C03b_results (E : Engine) (q : List Segment) (d : Json) (hd : d.plainKeys = true) (hn : nnSegs q)
+    (ps : List Ptr) (h : jsPathProcess E q d = .ok ps) (p₁ p₂ : Ptr) (h₁ : p₁ ∈ ps) (h₂ : p₂ ∈ ps) :
+    p₁.path = p₂.path ↔ p₁.loc = p₂.loc := by
+  rw [C03a_partial E q d hd hn ps h p₁ h₁, C03a_partial E q d hd hn ps h p₂ h₂]
+  exact ⟨NPath.npath_injective _ _, fun e => by rw [e]⟩
+
+/-- non-vacuity: names that need every kind of escape round-trip through the decoder -/
+example : NPath.parseNPath (Spec.npath [.key "a'b\\\n".toList, .idx 10, .key [Char.ofNat 1]]) = some [.key "a'b\\\n".toList, .idx 10, .key [Char.ofNat 1]] :=
+  NPath.parseNPath_npath _
 
 end JP.C03
